@@ -17,6 +17,7 @@ Signatures (first word of a `spec`):
   leak:<entry>@<where>                a goroutine the instance started is still there (not a registered sender, or
                                       parked in tracer.Send after the tracer ended)
   spin_after_cancel:<entry>           a goroutine keeps running (not explained by a tracer that cannot end)
+  panic_after_cancel:<engine function>  the process running the case died (panic in an engine goroutine)
   tracer_never_done:unknown, subscriber_channel_not_closed, wait_blocks_after_cancel, start_blocks_after_cancel,
   request_after_cancel_with_live_ctx, late_request_after_cancel
 -/
@@ -138,6 +139,11 @@ def check (params : List String) (lines : List String) : CaseResult := Id.run do
     | "obs" :: "task" :: node :: _ =>
       if afterCancel && kv ws "ctxdone" == some "0" then
         r := { r with specs := s!"request_after_cancel_with_live_ctx: task {node} requested after the cancel with a live context ({prog} point {pt})" :: r.specs }
+    | "obs" :: "died" :: "at" :: _ :: msg :: rest =>
+      sawCancelLine := true
+      sawAfter := true
+      let frame := (kv rest "in").getD "-"
+      r := { r with specs := s!"panic_after_cancel:{frame} the process running the case died: {msg} ({prog} point {pt})" :: r.specs }
     | "obs" :: "cancel" :: "at" :: _ =>
       sawCancelLine := true
       cancelWs := ws
